@@ -7,6 +7,10 @@ import socket as socket_mod
 FAKE_FD = 987
 
 
+class WouldWaitForever(Exception):
+    """the code under test asked the kernel to wait without limit while nothing was (or would become) ready"""
+
+
 class Sim:
     def __init__(self, buf, is_open, alive, sched):
         self.buf = bytes(buf)
@@ -92,13 +96,19 @@ class Patched:
         def sel(r, w, x, timeout=None):
             if fd in r:
                 sim.waits.append(timeout)
-                return ([fd] if sim.poll() else [], [], [])
+                ok = sim.poll()
+                if not ok and timeout is None:
+                    raise WouldWaitForever()
+                return ([fd] if ok else [], [], [])
             return self.saved[0](r, w, x, timeout)
 
         def pol(fds, timeout=None):
             if fd in fds:
                 sim.waits.append(timeout)
-                return [fd] if sim.poll() else []
+                ok = sim.poll()
+                if not ok and timeout is None:
+                    raise WouldWaitForever()
+                return [fd] if ok else []
             return self.saved[1](fds, timeout)
 
         def rd(f, n):
@@ -145,6 +155,8 @@ class FakeSocket:
         if not self.sim.poll():
             if self._timeout == 0:
                 raise BlockingIOError(11, 'would block')
+            if self._timeout is None:
+                raise WouldWaitForever()
             raise socket_mod.timeout('timed out')
         r = self.sim.read(n)
         if r == 'eof':
@@ -175,14 +187,14 @@ def make_reader(pexpect, which, sim, use_poll=False, encoding=None):
     return c, Patched(pexpect, sim, FAKE_FD)
 
 
-def run_calls(pexpect, which, sim, calls, use_poll=False, encoding=None):
+def run_calls(pexpect, which, sim, calls, use_poll=False, encoding=None, timeouts=None):
     """calls: [(size, t0)]; returns observations [[res], [buf, open, alive], sched_left]"""
     c, ctxm = make_reader(pexpect, which, sim, use_poll, encoding)
     out = []
     c._verif_timeout_changed = None
     c._verif_waits = []
     c._verif_sock = []          # per socket read: (own timeout afterwards, settimeout calls), in ms
-    own = [12.5, 7.25, 3.5, None, 40.0]
+    own = [12.5, 7.25, 3.5, None, 40.0, 0.0]
     with ctxm:
         for i, (size, t0) in enumerate(calls):
             if which == 2:
@@ -190,8 +202,9 @@ def run_calls(pexpect, which, sim, calls, use_poll=False, encoding=None):
                 c.socket._timeout = own[i % len(own)]
                 del c.socket.timeouts_set[:]
             del sim.waits[:]
+            tmo = (0 if t0 else 5) if timeouts is None else timeouts[i]
             try:
-                d = c.read_nonblocking(size, timeout=0 if t0 else 5)
+                d = c.read_nonblocking(size, timeout=tmo)
                 r = [0, d]
             except pexpect.EOF:
                 r = [1]
@@ -199,8 +212,10 @@ def run_calls(pexpect, which, sim, calls, use_poll=False, encoding=None):
                 r = [2]
             except BlockingIOError:
                 r = [3]
+            except WouldWaitForever:
+                r = [4]
             out.append([r, sim.state(), len(sim.sched)])
-            c._verif_waits.append((0 if t0 else 5, list(sim.waits)))
+            c._verif_waits.append((tmo, list(sim.waits), r[0]))
             if which == 2:
                 ms = lambda v: None if v is None else int(round(v * 1000))
                 c._verif_sock.append([ms(c.socket.gettimeout()), [ms(v) for v in c.socket.timeouts_set]])
@@ -215,7 +230,7 @@ def run_calls(pexpect, which, sim, calls, use_poll=False, encoding=None):
     return out, c
 
 
-SOCK_OWN_MS = [12500, 7250, 3500, None, 40000]
+SOCK_OWN_MS = [12500, 7250, 3500, None, 40000, 0]
 
 
 def gen_sched(rng, n, alpha=b'ab'):
